@@ -253,9 +253,29 @@ func runSearch(m map[string]any) Result {
 	_ = steps
 	var c call
 	n := countSteps(func() { c = doSearch(expr, docGo) })
-	if r := genericChecks(c, doc, docGo, b, true); r != nil {
+	var before *TV = doc
+	if b.hostile {
+		before = nil // the projection cannot represent foreign values; only "returns normally" is checked
+	}
+	if r := genericChecks(c, before, docGo, b, !b.hostile); r != nil {
 		r.Pinned = pinned(adm)
 		return *r
+	}
+	if b.hostile {
+		// every returned error formats (done in protect) and the Expression path does not panic either
+		if e, cc := doCompile(expr); cc.panicked {
+			r := fail("panic", cc.out, cc.stack)
+			r.Site = cc.site
+			return r
+		} else if e != nil {
+			b2 := &builder{carriers: b.carriers}
+			if c2 := doExprSearch(e, b2.build(doc)); c2.panicked {
+				r := fail("panic", c2.out, c2.stack)
+				r.Site = c2.site
+				return r
+			}
+		}
+		return Result{OK: true, Pinned: false, GotS: c.out.T}
 	}
 	res := Result{OK: true, Pinned: pinned(adm), Steps: n}
 	if !admits(adm, c.out) {
